@@ -127,3 +127,8 @@ func loadRegressions(t testing.TB, prop string) []regressCase {
 }
 
 func jsonUnmarshal(b []byte, v any) error { return json.Unmarshal(b, v) }
+
+// fataler is satisfied by *testing.T, *testing.B and *rapid.T.
+type fataler interface {
+	Fatalf(format string, args ...any)
+}
